@@ -1,3 +1,18 @@
-"""Which model<->implementation correspondences each property depends on (kind -> cases quick/thorough)."""
-KINDS = {}
-COUNT = {}
+"""Which model<->implementation correspondences each property depends on (kind -> cases quick/thorough).
+
+I : Lean spec inflater  vs Go reference inflater vs compress/flate (valid, faulty, truncated, flipped, dictionary streams)
+W : Lean Writer control model with replayed leaves vs the implementation, lock-step counters/results/destination calls
+"""
+KINDS = {
+    "C01": ["I", "W"],
+    "C02": ["I"],
+    "C03": ["I"],
+    "C09": ["W"],
+    "C10": ["I", "W"],
+    "C12": ["W"],
+    "C14": ["W"],
+    "C16": ["W"],
+    "C19": ["I", "W"],
+    "C20": ["W"],
+}
+COUNT = {"I": (300, 3000), "W": (600, 6000)}
